@@ -437,7 +437,9 @@ func (vc *VC) typeInv(t types.Type, s string, st *State) string {
 		z := vc.ar.ix(0)
 		le := func(a, b string) string { return vc.ar.le(ixInfo, a, b) }
 		maxs := vc.ar.num(ixInfo, ixInfo.max())
-		c := and(le(z, sx("soff", s)), le(z, sx("slen", s)), le(sx("slen", s), sx("scap", s)),
+		// no slice has 2^56 or more elements (64-bit address spaces are at most 2^57 bytes)
+		big := vc.ar.num(ixInfo, pow2(56))
+		c := and(le(z, sx("soff", s)), le(z, sx("slen", s)), le(sx("slen", s), sx("scap", s)), le(sx("scap", s), big), le(sx("soff", s), big),
 			sx("<", sx("rt", sx("sbase", s)), st.nextId),
 			imp(sx("=", sx("sbase", s), "lnil"), sx("=", sx("scap", s), z)))
 		if vc.ar.BV {
@@ -504,7 +506,9 @@ func (vc *VC) closureFact(h, key, nextId string, seq int) {
 	}
 	tmp := &State{nextId: nextId}
 	inv := vc.typeInv(elem, sx("select", h, "l!c"), tmp)
-	term := fmt.Sprintf("(forall ((l!c Loc)) (! %s :pattern ((select %s l!c))))", inv, h)
+	// only allocated locations: the contents of not-yet-allocated memory are unconstrained
+	// (they are revealed when a callee allocates and initialises an object)
+	term := fmt.Sprintf("(forall ((l!c Loc)) (! (=> (< (rt l!c) %s) %s) :pattern ((select %s l!c))))", nextId, inv, h)
 	if seq == 0 {
 		vc.facts = append(vc.facts, Fact{Seq: 0, Term: term, Kind: "assume"})
 	} else {
